@@ -1,6 +1,7 @@
 """C11 -- recovered displacement / strain / stress fields match the Ritz series and the kinematics.
 
-Functions under contract: Panel.uvw/strain/stress/_default_field (Python layer, symbolic execution) ; field kernels: see c11_kernel.
+Functions under contract: Panel.uvw/strain/stress/_default_field (Python layer, symbolic execution) ; point kernels: c11_kernel; the padding / prange / flattening
+wrappers fuvw, fstrain (both field modules): c11_wrap.
 """
 import sys
 from ..core import run_check
@@ -8,12 +9,15 @@ from . import py_fields
 
 
 def body(led):
-    led.assume('C11: field kernels fuvw/fstrain through their contract (per point, in order: series / Donnell relations of the amplitudes and panel attributes passed)')
+    led.assume('C11: in the Python layer fuvw/fstrain act through their contract (per point, in order: series / Donnell relations of the amplitudes and '
+               'panel attributes passed); that contract is itself proved: point kernels in c11_kernel, padding / chunking / flattening wrappers in c11_wrap')
     led.trust('cmverif symbolic executor; numpy object arrays for reshape/ravel/meshgrid semantics')
     py_fields.check_panel_fields(led)
     py_fields.check_assembly_fields(led)
     from . import c11_kernel
     c11_kernel.body(led)
+    from . import c11_wrap
+    c11_wrap.body(led)
 
 
 def main():
